@@ -29,6 +29,7 @@ use sozu_lib::server::Server;
 const HEAD_CL: &str = "HTTP/1.1 200 OK\r\nContent-Length: 20\r\nX-Test: abcdefgh\r\n\r\n";
 const HEAD_CH: &str = "HTTP/1.1 200 OK\r\nTransfer-Encoding: chunked\r\n\r\n";
 const HEAD_CD: &str = "HTTP/1.1 200 OK\r\nConnection: close\r\n\r\n";
+const HEAD_CLC: &str = "HTTP/1.1 200 OK\r\nContent-Length: 20\r\nConnection: close\r\n\r\n";
 const BODY: &str = "0123456789abcdefghij";
 const CHUNKED_BODY: &str = "a\r\n0123456789\r\na\r\nabcdefghij\r\n0\r\n\r\n";
 const DEADLINE: Duration = Duration::from_secs(8);
@@ -143,10 +144,12 @@ fn backend(listener: TcpListener, scn: Scn, until: Instant) {
         let full_cl = format!("{HEAD_CL}{BODY}");
         let full_ch = format!("{HEAD_CH}{CHUNKED_BODY}");
         let full_cd = format!("{HEAD_CD}{BODY}");
+        let full_clc = format!("{HEAD_CLC}{BODY}");
         match scn.kind.as_str() {
-            "close_at" | "reset_at" | "stall_after" | "chunked_close_at" | "close_delim_at" => {
+            "close_at" | "reset_at" | "stall_after" | "chunked_close_at" | "close_delim_at" | "cl_close_at" => {
                 let full = match scn.kind.as_str() {
                     "chunked_close_at" => &full_ch,
+                    "cl_close_at" => &full_clc,
                     "close_delim_at" => &full_cd,
                     _ => &full_cl,
                 };
